@@ -111,7 +111,9 @@ class C09(Prop):
             "senders without a device class (0x56, 0x00) and from ecoSTER; 1-3 consumers, often more bad frames than consumers; frames arrive in "
             "one burst or one at a time with the loop settled in between (paced); in bursts often with a slow user subscriber of the device entry, so that a backlog of frames builds up on the read queue while the entry is published; a quarter of the sequences contain a run of 2-8 undecodable frames of one kind followed by valid frames of that kind; `delivered` = handle_frame called with the frame and every name its payload decodes to dispatched on the device.  Non-trivial = "
             "at least one undecodable / device-less frame followed by a valid one; distinct by case content.")
-    assumptions = ["whether a payload decodes is decided by the Coq decoders of C05 for the seven kinds that have one (sensor data, UID, regulator "
+    assumptions = ["`decode-time` probes: product-information frames with long model names are decoded in a child process under a wall-clock "
+                   "limit (real time, not the virtual clock): more than a second for one frame counts as a stalled pipeline",
+                   "whether a payload decodes is decided by the Coq decoders of C05 for the seven kinds that have one (sensor data, UID, regulator "
                    "data schema, ecoMAX / mixer parameters, alerts, schedules) and compared frame by frame with the verdict of the real decoder "
                    "on a fresh device; for the other kinds it is an oracle (the real decoder)",
                    "`answered` = the reply is transmitted or waiting in the write queue when the input ends"]
@@ -183,6 +185,8 @@ class C09(Prop):
         return out
 
     def run_impl(self, c):
+        if c.get("kind") == "decode-time":
+            return {"decode_seconds": self._stall_run([c])[0]}
         pf = self._pframes(c)
         r = vloop.run(_run, c["frames"], c["net"], c["consumers"], c.get("paced", False), c.get("slow_entry", 0))
         valid_tags = {p[0] for p in pf if p[3] and p[1] in (0x45, 0x51)}
@@ -205,6 +209,8 @@ class C09(Prop):
                 "decodable": [[fi, bool(p[3])] for fi, (f, p) in enumerate(zip(c["frames"], pf)) if f["kind"] in MODEL_DECODERS and f["sender"] == 0x45]}
 
     def model_many(self, cases):
+        if cases and all(c.get("kind") == "decode-time" for c in cases):
+            return [None] * len(cases)
         md = self._model_decodable(cases)
         # the pipeline model runs on the MODEL's verdicts where there is a Coq decoder (the oracle only for the other kinds)
         pfs = []
@@ -217,10 +223,62 @@ class C09(Prop):
                 for ci, (c, r) in enumerate(zip(cases, res))]
 
     def spec_many(self, cases, behaviours):
+        if cases and all(c.get("kind") == "decode-time" for c in cases):
+            return [b["decode_seconds"] is not None and b["decode_seconds"] <= 1.0 for b in behaviours]
         res = model.call_many("P09", [[self._pframes(c), bytes(b["handed_valid"]), b["replies"], b["unfinished"]]
                                       for c, b in zip(cases, behaviours)])
         return [bool(r) and b["shutdown_ok"] and b["netinfo_payload_ok"] and b["producer_alive"] == 1
                 for r, b in zip(res, behaviours)]
+
+    # ---- `no received frame stalls the pipeline`: decoding runs on the event loop, so a payload that keeps the decoder busy for
+    # seconds stalls everything.  Product-information frames with long model names (letters, digits, blanks in every arrangement)
+    # are decoded in a child process under a wall-clock limit.
+    def _stall_cases(self, rng):
+        kind, payload = PI.captured()["uid"]
+        head = bytes(payload[:19])
+        names = ["PelletBoilerControllerPlatinumBioLuxSeriesTouch", "A" * 60, "ab" * 30, "EM" + "X" * 40, "ecoMAX" * 9 + "1",
+                 "Z" * 30 + " " * 10, " ".join(["PRO"] * 14), "A" * 40 + "12", "1" * 60, "EM 350" + "P" * 50]
+        for _ in range(6):
+            n = rng.randrange(24, 64)
+            names.append("".join(rng.choice("ABCabcxyz  ") for _ in range(n)))
+        return [{"kind": "decode-time", "frame_kind": kind, "payload": list(head + bytes([len(nm)]) + nm.encode())} for nm in names]
+
+    def _stall_run(self, cases, limit=20):
+        import subprocess, sys
+        script = ("import sys, json, time\n"
+                  "sys.path.insert(0, '/repo')\n"
+                  "from pyplumio.frames.responses import UIDResponse\n"
+                  "for p in json.loads(sys.argv[1]):\n"
+                  "    t = time.time()\n"
+                  "    try:\n"
+                  "        UIDResponse(message=bytearray(p)).data\n"
+                  "    except Exception:\n"
+                  "        pass\n"
+                  "    print(round(time.time() - t, 3), flush=True)\n")
+        import json as _json
+        try:
+            r = subprocess.run([sys.executable, "-c", script, _json.dumps([c["payload"] for c in cases])], stdout=subprocess.PIPE,
+                               stderr=subprocess.PIPE, timeout=limit)
+            times = [float(x) for x in r.stdout.decode().split()]
+        except subprocess.TimeoutExpired as e:
+            times = [float(x) for x in (e.stdout or b"").decode().split()]
+        return times + [None] * (len(cases) - len(times))          # None = not finished within the limit
+
+    def extra_checks(self, tier, rng):
+        cases = self._stall_cases(rng)
+        times = self._stall_run(cases)
+        self._decode_times = [t for t in times if t is not None]
+        fails = []
+        for c, t in zip(cases, times):
+            if t is None or t > 1.0:
+                fails.append({"case": c, "impl": {"decode_seconds": t}, "reason": "decoding one product-information frame keeps the event "
+                              "loop busy for more than a second (None = not finished within the limit): the pipeline is stalled"})
+                break           # (the payloads behind the first stalling one were not reached)
+        return fails
+
+    def extra_coverage(self):
+        ts = getattr(self, "_decode_times", [])
+        return {"decode_time_probes": len(ts), "slowest_decode_s": max(ts) if ts else None}
 
     def nontrivial_key(self, c, mb):
         pf = self._pframes(c)
